@@ -20,7 +20,7 @@ gvars == <<P, hist, done>>
 (* input shapes that reach a recorded finding of C10 (findings_proposed/C10-*.md).  The bulk of the
    behaviours is generated with all of them avoided and must pass the strict invariants; a smaller
    batch is generated with none avoided and is judged with the finding-specific weakenings. *)
-KFTriggersWb  == {"delasgall", "replace", "delstmt2", "extdel", "lb", "largeadd", "delpolassigned"}
+KFTriggersWb  == {"delasgall", "replace", "delstmt2", "lb", "largeadd", "delpolassigned"}
 KFTriggersApi == KFTriggersWb \cup {"apiorigin", "apicommact"}
 (* over the API a DeleteStatement of the "delstmt2" shape kills the server process: never generated *)
 ApiAlways     == {"delstmt2"}
@@ -97,8 +97,7 @@ GenDelSet ==
        LET kind == P.dsets[name].kind
            cur  == P.dsets[name].members
            pool == IF cur = {} THEN MembersOf(kind) ELSE cur
-       IN /\ ("extdel" \in Avoid /\ kind = "ext") => all
-          /\ \E ms \in SomeOf(IF kind = "prefix" THEN {e \in pool : e.fam = (CHOOSE x \in pool : TRUE).fam} ELSE pool, n) :
+       IN /\ \E ms \in SomeOf(IF kind = "prefix" THEN {e \in pool : e.fam = (CHOOSE x \in pool : TRUE).fam} ELSE pool, n) :
                Step([op |-> "DelSet", kind |-> kind, name |-> name, members |-> ms, all |-> all])
 
 GenAddStmt ==
